@@ -25,6 +25,7 @@ EXPLANATION = (
     "only from the tick and after the hello/login wait of the connect phase; the client's default interval folds to 20 s. "
     "Decides the flag/timer protocol and the symbolic deadlines; the detection window (5.5K, 6.5K] is their consequence over "
     "time and is not decided as a number."
+    ' Added: on an open connection no message is acted on before it was parsed; a time handed to the scheduler through a local is read after the last suspension point.'
 )
 ASSUMPTIONS = ["loop.call_at fires at its deadline", "M1-M5 of DESIGN.md section 2"]
 
